@@ -15,12 +15,16 @@ RULE = ('write programs (the C09 operation space plus raw db.insert / db.execute
         'must complete a read and a write session. (b) error points: for programs with at most 60 DB-API calls every '
         '(call index, legal fault kind) is re-run; afterwards the dump equals the old committed state or, if commit '
         'reported success, the new one. Non-trivial = the program committed at least once with two or more accepted '
-        'modifications; distinct by (program, knobs, fault position).')
+        'modifications; distinct by (program, knobs, fault position). (c) connection loss: the single-commit session '
+        'shapes of the C19 engine run on a stand-in provider that reconnects after the injected connection-lost error, '
+        'once per statement and with a failing or repeated reconnect; the file must hold the state before the session '
+        'or the state of the complete session.')
 
 COMPONENTS = {
     'real': ['pony.orm.core flush / commit / rollback, Database._exec_sql, raw SQL paths', 'SQLite provider transaction handling',
              'libsqlite rollback-journal recovery on real files (tmpfs)'],
-    'stub': ['DB-API proxy (snapshots, fault injection)', 'reference model'],
+    'stub': ['DB-API proxy (snapshots, fault injection)', 'reference model',
+             'stand-in reconnecting provider (SQLiteProvider with should_reconnect() true for the injected connection-lost error)'],
 }
 
 W = {'new': 8, 'set': 6, 'setmany': 2, 'rel': 4, 'add': 4, 'remove': 3, 'assign': 2, 'clear': 1, 'create_in': 3, 'del': 4,
@@ -102,10 +106,13 @@ def main(tier, seed):
                             pending.append(c2)
                             stats['error_point_runs'] += 1
         col.extra['crash_and_error_points'] = stats
+        from . import reconnect
+        reconnect.run(pool, col, tier, seed)
         rc = harness.finish(col, pool, lambda case: engines.get(case['engine']), components=COMPONENTS,
                             assumptions=['a crash is process death: what the process had written is in the files (power '
                                          'loss / torn sectors are libsqlite\'s contract, not Pony\'s)',
                                          'faults are delivered before the call takes effect; failing COMMIT with I/O error or '
                                          'disk full rolls the transaction back as SQLite does',
-                                         'SQLite only; connection-loss reconnect paths of other providers are not run here'])
+                                         'SQLite only; the provider-neutral reconnect logic runs on a stand-in provider, the '
+                                         'should_reconnect() predicates of the other providers are not run here'])
     return rc
